@@ -132,6 +132,7 @@ func (qr *queryRequest) Timeout(d time.Duration) {
 func (qe *queryEvent) startQueryListener() {
 	for m := range qe.ch {
 		m := m
+		verifPoint("query.recv", m)
 		qe.r.s.runWith(qe.r.Group(), func() {
 			qe.handleQueryRequest(m)
 		})
@@ -140,6 +141,7 @@ func (qe *queryEvent) startQueryListener() {
 
 // handleQueryRequest is called by the query listener on incoming query requests.
 func (qe *queryEvent) handleQueryRequest(m *nats.Msg) {
+	defer verifPoint("query.done", m)
 	s := qe.r.s
 	s.tracef("Q=> %s: %s", qe.r.rname, m.Data)
 
